@@ -6,6 +6,7 @@ PyramidIO.write_image, PyramidIO.read_image, PyramidIO.tile_path.
 Symbolic: source image content and SHAPE, prior buffer content, the rectangle (forward slices and the reversed-row
 slice form used by the tilers), the inspected pixel and channel.
 """
+from vlib.core import soft_attr as core_u
 import z3
 
 import toasty.image as ti
@@ -523,7 +524,7 @@ def check(run):
     run.outside("update_into_maskable_buffer with paired index ARRAYS: not a rectangle indexer and no caller passes one (the real function then updates a temporary copy, i.e. does nothing)")
     run.uses(ti.Image.from_array, ti.ImageMode.make_maskable_buffer, ti.Image.fill_into_maskable_buffer,
              ti.Image.update_into_maskable_buffer, ti.Image.clear, ti.Image.is_completely_masked,
-             ti.Image._as_writeable_array, tp.PyramidIO.write_image, tp.PyramidIO.read_image, tp.PyramidIO.tile_path)
+             core_u(ti.Image, "_as_writeable_array"), tp.PyramidIO.write_image, tp.PyramidIO.read_image, tp.PyramidIO.tile_path)
     run.bound(modes="all 8", source_shape="symbolic 1..4096 x 1..4096", rectangle="symbolic, 1..256 x 1..256, anywhere inside source and buffer; forward and reversed-row slice forms; fill also from paired index arrays of 3 points (symbolic positions, distinct destinations: the chunk sampler's form)",
               pixel="symbolic (r, c, channel) of the 256x256 buffer", prior_buffer="arbitrary (uninterpreted)", file_history="prior file present / absent (symbolic)")
     run.assume("numpy semantics as modelled by vlib/symnp.py (validated per run against real numpy on solver-chosen inputs: *.conformance obligations)",
